@@ -44,6 +44,7 @@ class Block:
         self.pos = 0             # bytes emitted
         self.lits = []           # finished literals (lists of units, prefix included)
         self.cur = None
+        self.cur_bytes = 0
         self.cur_target = 0
         self.echoes = []         # pending far echoes: dict(q, marker, g1, g2, eo, ln)
         self.realised = []       # (eo, ln, how)
@@ -78,7 +79,8 @@ class Block:
 
     def emit(self, units):
         for u in units:
-            self.units.append(u); self.cur.append(u); self.pos += self.size(u)
+            k = self.size(u)
+            self.units.append(u); self.cur.append(u); self.pos += k; self.cur_bytes += k
 
     # ---- literals
     def prefix(self, i):
@@ -88,6 +90,7 @@ class Block:
 
     def open_lit(self):
         self.cur = []
+        self.cur_bytes = 0
         self.cur_target = self.r.choice(self.lit_sizes)
         self.emit(self.prefix(len(self.lits)))
 
@@ -200,8 +203,7 @@ class Block:
                 self.realised.append((e["eo"], e["ln"], "far"))
                 continue
             gap = (nxt - self.pos) if nxt is not None else 10 ** 9
-            psize = sum(map(self.size, self.prefix(0)))
-            if (sum(map(self.size, self.cur)) >= self.cur_target and gap >= psize and self.can_open_more()):
+            if (self.cur_bytes >= self.cur_target and gap >= 2 and self.can_open_more()):
                 self.close_lit()
                 continue
             if targets and r.random() < place_p:
@@ -532,9 +534,11 @@ def plan(tier, r):
                                     pick(r, FAR, [l for l in LEN_BOUNDS if l != 3], 4) + [(e, 3) for e in (640, 641, 8320, 16511)],
                                     r.choice([300, 3000, 9000]), pick(r, EO_BOUNDS, LEN_BOUNDS, 1) if k % 2 else [],
                                     alphas[(k + 1) % 6], [20, 80, 200, 600, 2100, 4100]))
-        for k, size in enumerate([8300, 16384, 16600, 33000]):       # table sizes around the offset-bit and window limits
-            mods.append(make_module(r, "c10bt_size%d" % k, size - 600, pick(r, r.sample(EO_BOUNDS, 12), LEN_BOUNDS, 1), 300, [],
-                                    alphas[k], [20, 80, 200, 600]))
+        # table sizes around the saving threshold, the offset-bit limits and the window limit
+        for k, size in enumerate([300, 600, 1024, 2100, 4400, 8300, 8500, 8700, 16384, 16700, 17100, 33000]):
+            tg = [(eo, ln) for eo, ln in pick(r, EO_BOUNDS, LEN_BOUNDS, 2) if eo + 2 * ln + 60 <= size - 250]
+            mods.append(make_module(r, "c10bt_size%d" % k, size - 250, r.sample(tg, min(len(tg), 8)), 60, [],
+                                    alphas[k % 6], [20, 80, 200, 600], ident_markers=1, cross=1, extras=(k % 2 == 0)))
         for k, size in enumerate([66000, 70000, 140000, 210000]):
             mods.append(make_module(r, "c10bt_64k%d" % k, size, pick(r, EO_BOUNDS, LEN_BOUNDS, 3), 6000,
                                     pick(r, r.sample(EO_BOUNDS, 10), LEN_BOUNDS, 1), alphas[k % 6],
